@@ -65,6 +65,12 @@ def run_variant(pid, module, variant, repo="/repo"):
             if ap.returncode != 0:
                 return "skipped", None, "reverse patch does not apply: %s" % ap.stderr.decode()[:200]
             edits = []
+        elif variant.get("patch"):
+            import subprocess
+            ap = subprocess.run(["git", "apply", "--whitespace=nowarn", "--include=src/*", "--include=conf/*", variant["patch"]], cwd=tmp, capture_output=True)
+            if ap.returncode != 0:
+                return "skipped", None, "patch does not apply: %s" % ap.stderr.decode()[:200]
+            edits = []
         else:
             edits = variant.get("edits") or [(variant["file"], variant["old"], variant["new"])]
         for e in edits:
@@ -83,10 +89,39 @@ def run_variant(pid, module, variant, repo="/repo"):
         shutil.rmtree(tmp, ignore_errors=True)
 
 
-def run_all(pid, module, repo="/repo", verbose=False):
+def seeded_variants(pid):
+    """Confirmed sub-agent changes kept under /verif/seeded/<PID>-<k>/patch.diff (each must make the check fire)."""
+    d = os.path.join(core.VERIF, "seeded")
+    out = []
+    if os.path.isdir(d):
+        for name in sorted(os.listdir(d)):
+            if name.startswith(pid + "-") and os.path.exists(os.path.join(d, name, "patch.diff")):
+                out.append({"name": "seeded/" + name, "patch": os.path.join(d, name, "patch.diff")})
+    return out
+
+
+def _job(a):
+    pid, v, repo = a
+    import importlib
+    sys.setrecursionlimit(20000)
+    mod = importlib.import_module("sa.props.%s" % pid.lower())
+    try:
+        return run_variant(pid, mod, v, repo)
+    except Exception as e:  # a crashed variant run is a checker problem, reported as such
+        return "error", None, "%s: %s" % (type(e).__name__, e)
+
+
+def run_all(pid, module, repo="/repo", verbose=False, jobs=None, seeded=True):
     res = []
-    for v in load_variants(pid):
-        status, rc, out = run_variant(pid, module, v, repo)
+    variants = load_variants(pid) + (seeded_variants(pid) if seeded else [])
+    jobs = jobs or min(16, os.cpu_count() or 1)
+    if jobs > 1 and len(variants) > 1:
+        import multiprocessing
+        with multiprocessing.get_context("fork").Pool(jobs) as pool:
+            outs = pool.map(_job, [(pid, v, repo) for v in variants], chunksize=1)
+    else:
+        outs = [run_variant(pid, module, v, repo) for v in variants]
+    for v, (status, rc, out) in zip(variants, outs):
         want = v.get("expect", "fire")
         ok = (status == "fired" and want == "fire") or (status == "silent" and want == "silent") or status == "skipped"
         named = True
